@@ -119,6 +119,12 @@ func c05FnPrograms(thorough bool, f func(fam, src string) bool) bool {
 	// repeated parameter names (rejected by the parser: the same verdict in both configurations)
 	for _, src := range []string{"func f(p, p) { p }\nprintln(f(1, 2))", "f = (p, p) => p + 1\nprintln(f(1, 2))", "func f(p, q, p) { [p, q] }\nprintln(f(1, 2, 3))",
 		"f = func(p, p) { p = p + 1; p }\nprintln(f(1, 2.5))",
+		// the same loop node entered again in the same frame with another number of registers in use; a loop spliced twice by a macro
+		"for k = [2, [7, 8]] { for a = k { for i = 3 { println(k, i) } } }", "func f() { for k = [1, [5], 2, [6, 6]] { for a = k { for i = 2 { for j = 2 { println(k, a, i, j) } } } } }\nf()",
+		"m = macro(x) { quote(if true { unquote(x); for q = 2 { unquote(x) } }) }\nm(for i = 3 { println(i) })", "for k = [3, \"ab\", 2] { for a = k { for i = 2 { println(k, a, i) } } }",
+		// a function left by return from inside a counted loop while something still looks at the frame
+		"func mk() { g = func() { i }; for i = 5 { if i == 3 { return g } } }\nprintln(mk()())", "func h() { x = for i = 5 { if i == 3 { return 9 } }; [x, i] }\nprintln(h())",
+		"func h2() { eval(\"for i = 5 { if i == 2 { return 1 } }\"); i }\nprintln(catch(h2()))", "func mk2() { g = () => [i, j]; for i = 3 { for j = 3 { if j == 1 { return g } } } }\nprintln(catch(mk2()()))",
 		// names of extension namespaces and of their members as integer parameters and loop variables, the extension used in the same body
 		"func f(time) { [time, time.now() > 0] }\nprintln(f(3))", "for image = 2 { image.new(\"rimg\", 2, 2); println(image) }", "func f(now) { [now, time.now() > now] }\nprintln(f(3))",
 		"func f(new, set) { image.new(\"rim2\", new, set); image.set(\"rim2\", 0, 0, [1, 2, 3]); [new, set] }\nprintln(f(2, 3))", "for parse = 2 { println(parse, time.parse(\"2024-01-02\") > 0) }",
